@@ -33,3 +33,6 @@ POTENTIAL_PARENTS_CACHE_SIZE: int = 20
 DEFAULT_COMMAND_TIMEOUT: float = 10
 MIN_TRANSFER_MGMT_INTERVAL: float = 0.05
 MAX_TRANSFER_MGMT_INTERVAL: float = 0.25
+MAX_TRANSFER_MGMT_IDLE_INTERVAL: float = 1.0
+"""Maximum time the transfer management waits for a request before checking the
+transfers anyway"""
